@@ -92,7 +92,7 @@ def run(tier, seed, work):
     rep = vlib.Report("C05", tier, seed)
     jobs = build_jobs(tier, seed)
     vlib.run_jobs(jobs, work)
-    rep.absorb(jobs)
+    rep.absorb(jobs, replay_cb=vlib.ops_replay_cb("symmetry"))
     rep.extraction = {"rules_fired": jobs[0].rules.summary(), "body_sha256_16": jobs[0].hashes}
     rep.trusted = ["double treated as mathematical real", "CBMC 6.11 + z3 5.1", "extractor rules (tools/vlib.py, tools/units.py)"]
     rep.assumptions = ["antipodal angles (PolarGrid::checkParameters)", "arr, att > 0, beta >= 0", "shape-bounded"]
